@@ -1,1 +1,72 @@
-pub fn placeholder() {}
+//! Glue of the coverage guided part of C14. The oracle itself lives in the check
+//! (`/verif/harness/src/bin/c14/shared.rs`, included here), so that a crash artifact found by
+//! libFuzzer is replayed by the check without this build.
+//!
+//! A finding whose signature starts with a line of `/verif/fuzz/allowlist.txt` (panics: keyed on
+//! file and message prefix; engine errors: the signature) is tolerated: it is appended to the
+//! file named by `C14_FUZZ_SIGS` and the campaign continues. Anything else aborts the process,
+//! libFuzzer then stores the input as a crash artifact. `C14_FUZZ_STRICT=1` ignores the allow
+//! list (used to replay an artifact).
+
+#[path = "/verif/harness/src/bin/c14/shared.rs"]
+pub mod shared;
+
+use std::collections::HashSet;
+use std::io::Write;
+use std::sync::{Mutex, OnceLock};
+
+struct State {
+    allow: Vec<String>,
+    seen: HashSet<String>,
+    sigs_path: Option<String>,
+}
+
+static STATE: OnceLock<Mutex<State>> = OnceLock::new();
+
+fn state() -> &'static Mutex<State> {
+    STATE.get_or_init(|| {
+        let strict = std::env::var("C14_FUZZ_STRICT").map(|v| v == "1").unwrap_or(false);
+        let mut allow = Vec::new();
+        if !strict {
+            let path = std::env::var("C14_FUZZ_ALLOW").unwrap_or_else(|_| "/verif/fuzz/allowlist.txt".to_string());
+            if let Ok(text) = std::fs::read_to_string(path) {
+                for l in text.lines() {
+                    let l = l.trim();
+                    if !l.is_empty() && !l.starts_with('#') {
+                        allow.push(l.to_string());
+                    }
+                }
+            }
+        }
+        Mutex::new(State { allow, seen: HashSet::new(), sigs_path: std::env::var("C14_FUZZ_SIGS").ok() })
+    })
+}
+
+/// called once per input with what the oracle found
+pub fn judge(findings: Vec<shared::Finding>) {
+    if findings.is_empty() {
+        return;
+    }
+    let mut st = state().lock().unwrap();
+    for f in findings {
+        let allowed = st.allow.iter().any(|a| f.signature.starts_with(a.as_str()));
+        if allowed {
+            if st.seen.insert(f.signature.clone()) {
+                if let Some(p) = &st.sigs_path {
+                    if let Ok(mut file) = std::fs::OpenOptions::new().create(true).append(true).open(p) {
+                        let _ = writeln!(file, "{}", f.signature);
+                    }
+                }
+            }
+        } else {
+            eprintln!("C14-VIOLATION signature={} detail={}", f.signature, f.detail.replace('\n', "\\n"));
+            let _ = std::io::stderr().flush();
+            std::process::abort();
+        }
+    }
+}
+
+pub fn init() {
+    shared::install_hook_force();
+    let _ = state();
+}
